@@ -409,27 +409,51 @@ fn flood_run(ch: &Ch, frame: usize, nframes: usize, consume: usize, unopened: bo
     });
     let (pulled, consumed, observed, early) = res.lock().unwrap().clone();
     let c = cfg();
-    let by_count = c.read_frame_count as usize;
-    // frames larger than read_frame_size are split into chunks of read_frame_size
-    let chunk = frame.min(c.read_frame_size as usize).max(1);
-    let by_size = (c.read_buffer_size as usize) / chunk;
-    let admitted_chunks = by_count.min(by_size);
-    // payload the mux may hold + per-frame overhead (header 2 + length 2) + one OPEN + the header/length
-    // of the frame it is blocked on + whatever the application consumed (rounded up to chunks)
-    let frames_touched = (admitted_chunks * chunk + consumed).div_ceil(frame.max(1)) + 1;
-    let bound = (admitted_chunks * chunk + consumed + chunk) as u64 + 4 * (frames_touched as u64 + 1) + 2;
-    let beyond = pulled.saturating_sub(hs_len);
+    // The script is known, so the number of bytes pulled from the transport tells exactly which DATA
+    // payload bytes (and how many chunks: frames above read_frame_size are read in chunks of that size)
+    // the multiplexer has taken. What it holds = taken - consumed by the application; that is what the
+    // configured limits bound (a chunk counts until the application has consumed all of it).
+    let beyond = pulled.saturating_sub(hs_len) as usize;
+    let chunk_sz = (c.read_frame_size as usize).max(1);
+    let mut off = if unopened { 0 } else { 2 };
+    let (mut payload_pulled, mut chunks_pulled) = (0usize, 0usize);
+    let mut chunk_sizes: Vec<usize> = vec![];
+    for _ in 0..nframes {
+        let start = off + 4;
+        let got = beyond.saturating_sub(start).min(frame);
+        payload_pulled += got;
+        chunks_pulled += got.div_ceil(chunk_sz);
+        let mut rest = frame;
+        while rest > 0 {
+            chunk_sizes.push(rest.min(chunk_sz));
+            rest -= rest.min(chunk_sz);
+        }
+        off = start + frame;
+    }
+    let mut chunks_consumed = 0usize;
+    let mut left = consumed;
+    for cs in &chunk_sizes {
+        if left >= *cs {
+            left -= cs;
+            chunks_consumed += 1;
+        } else {
+            break;
+        }
+    }
+    let held_bytes = payload_pulled.saturating_sub(consumed);
+    let held_chunks = chunks_pulled.saturating_sub(chunks_consumed);
     let mut violation = None;
     if !observed {
         violation = Some("machinery: flood harness did not reach its observation point".to_string());
     } else if let Some(e) = early {
         violation = Some(e);
-    } else if !unopened && beyond > bound {
+    } else if !unopened && (held_bytes > c.read_buffer_size as usize || held_chunks > c.read_frame_count as usize) {
         violation = Some(format!(
-            "the multiplexer pulled {beyond} bytes beyond the handshake from a peer flooding {nframes} DATA frames of {frame} bytes while the application consumed {consumed} bytes; its limits (read_buffer_size {}, read_frame_count {}, read_frame_size {}) allow at most {bound}",
+            "from a peer flooding {nframes} DATA frames of {frame} bytes the multiplexer took {payload_pulled} payload bytes in {chunks_pulled} chunks off the transport while the application consumed {consumed} bytes ({chunks_consumed} whole chunks): it holds {held_bytes} unconsumed bytes in {held_chunks} chunks, its limits are read_buffer_size {} and read_frame_count {} (read_frame_size {})",
             c.read_buffer_size, c.read_frame_count, c.read_frame_size
         ));
     }
+    let beyond = beyond as u64;
     ExecResult { obs: fx_hash(&(pulled, consumed)), violation, nontrivial: true, witnesses: vec![("mux_blocked_by_flow_control", (beyond > 0 && beyond < (nframes * (frame + 4)) as u64) as u64)] }
 }
 
